@@ -92,3 +92,41 @@ def api_pass(run: Run, pkg: Package) -> None:
                 if isinstance(v, tuple):
                     visit(v, False)
     run.extra["api_names_resolved"] = n
+
+
+def alias_pass(run: Run, pkg: Package) -> None:
+    """R-ALIAS, shared post-pass: an array allocated OUTSIDE a loop, written inside it and appended to a list inside it (without
+    a copy) is one object appended many times - after the loop every entry of the list shows the values of the last iteration.
+    (Hoisting a per-frame work array out of the frame loop is the usual way to get there.)"""
+    n = 0
+    for fq in sorted(run.functions):
+        try:
+            fi = pkg.func(fq)
+        except Exception:  # noqa
+            continue
+        it = interp(pkg, fi.qual)
+        allocs = {}
+        for e in it.events:
+            if e.kind == "assign" and e.data["value"][0] == "call" and e.data["value"][1] in ("numpy.zeros", "numpy.empty", "numpy.ones", "numpy.zeros_like", "numpy.empty_like", "numpy.full"):
+                allocs.setdefault(e.data["value"], []).append(e)
+        if not allocs:
+            continue
+        for e in it.events:
+            if not (e.kind == "call" and e.data["call"][1] == ".append" and len(e.data["call"][2]) == 2 and e.loops):
+                continue
+            x = e.data["call"][2][1]
+            xs = {x}
+            while x[0] == "mu" and len(x) > 3 and isinstance(x[3], tuple):
+                x = x[3]                  # loop-carried name whose value on entry is the allocation
+                xs.add(x)
+            if x not in allocs:
+                continue
+            n += 1
+            L = e.loops[-1]
+            born_outside = all(L not in b.loops for b in allocs[x])
+            written_inside = any(s.kind == "store" and s.data["target"][1] in xs and L in s.loops for s in it.events)
+            if born_outside and written_inside:
+                run.ob("R-ALIAS", fq, f"appended:{key_of(e)[:60]}", False, "an array appended to a list once per iteration is a fresh object in every iteration", f"{show(x)[:60]} is allocated before the loop",
+                       witness=f"the list ends up holding the same array object once per iteration: after the loop every entry equals the values written in the LAST iteration "
+                               f"(frames 0..T-2 are lost)", loc=loc_of(it, e), sound=True)
+    run.extra["appended_arrays_checked"] = n
